@@ -331,6 +331,28 @@ fn check_iter<'a>(mut it: impl Iterator<Item = &'a EntityAny>, exp: &[Option<Ent
     }
 }
 
+/// A window between two clears that holds destructions but NO creations: the second clear must
+/// empty the destroyed log as well (archetype and world level).
+pub fn clear_destroy_only_window<const N: usize>(world_level: bool) {
+    let (mut world, _m0) = state_with_history_opt::<N>(Some(true));
+    world.clear_events();
+    let m: Model<N> = read::<One, N>(&mut world);
+    let k = sym::any_usize();
+    sym::assume(k < m.len);
+    let (key, ver) = m.handle_raw(One::ID, k);
+    assert!(world.destroy(EntityAny::from_raw((key, ver)).ok().unwrap()).is_some());
+    let (_c, nc, d, nd) = logs::<4>(&world);
+    assert!(nc == 0 && nd == 1 && d[0] == (key, ver), "destruction after a clear is not the only pending event");
+    if world_level { world.clear_events(); } else { world.arch_one.clear_events(); }
+    let (_c2, nc2, _d2, nd2) = logs::<4>(&world);
+    assert!(nc2 == 0 && nd2 == 0, "clear_events left destroyed-events behind (window with destructions but no creations)");
+    assert!(world.iter_destroyed().next().is_none());
+    cover!(true, "destroy-only window cleared");
+    std::mem::forget(world);
+}
+
+harness! { fn c17_clear_destroy_only_arch_2() unwind(8) { clear_destroy_only_window::<2>(false) } }
+harness! { fn c17_clear_destroy_only_world_2() unwind(8) { clear_destroy_only_window::<2>(true) } }
 harness! { fn c17_delta_create_2() unwind(8) { log_delta::<2>(0) } }
 harness! { fn c17_delta_within_2() unwind(8) { log_delta::<2>(1) } }
 harness! { fn c17_delta_destroy_wtyped_2() unwind(8) { log_delta::<2>(2) } }
